@@ -20,6 +20,7 @@ import (
 
 type vLoopShard struct {
 	name string
+	dir  string
 	sc   *sidecar.VSidecar
 	sh   *shard.Shard
 	// fault script: the shard is not ready in this cycle / the next target POST is lost
@@ -72,12 +73,17 @@ type vLoopManager struct {
 	shards []*vLoopShard
 	made   int
 	calls  []int32
+	base   string // fresh directory holding the sidecars' stores
 }
 
 func (m *vLoopManager) add() *vLoopShard {
 	name := "s" + zzv.Itoa(m.made)
 	m.made++
-	l := &vLoopShard{name: name, sc: sidecar.VNewSidecar("store-" + name)}
+	if m.base == "" {
+		m.base = zzv.TempDir()
+	}
+	l := &vLoopShard{name: name, dir: m.base + "/store-" + name}
+	l.sc = sidecar.VNewSidecar(l.dir)
 	m.shards = append(m.shards, l)
 	return l
 }
@@ -231,7 +237,7 @@ func VLoop(S, K, H, fault int) {
 				victim.notReady = true
 			case 2:
 				// the sidecar process restarts: a fresh manager on the same store
-				victim.sc = sidecar.VNewSidecar("store-" + victim.name)
+				victim.sc = sidecar.VNewSidecar(victim.dir)
 			}
 			zzv.Cover("loop.fault")
 		}
